@@ -188,3 +188,40 @@ func VerifC44_ticket_too_short() {
 	st, ok := c.decryptTicket(vrt.Bytes("ticket", n))
 	vrt.Assert(!ok && st == nil, "C44/short-ticket-refused")
 }
+
+// VerifC44_ticket_mac_modified: a GENUINE ticket (real encryptTicket of a session with symbolic
+// version, suite and 2-byte master secret, under the server's current key) whose MAC field was
+// modified afterwards (XOR with 32 symbolic bytes, not all zero; IV and ciphertext untouched) is
+// refused by decryptTicket. HMAC-SHA256 is not interpreted: the SHA-256 compression function is an
+// uninterpreted function with functional consistency (engine/sym/intrinsics_crypto.go: equal chaining
+// state and block bytes give the equal new state, anything else a fresh symbolic state), which is all
+// this needs - the MAC that decryptTicket recomputes over the unmodified IV||ciphertext is the MAC
+// encryptTicket wrote, so a MAC field that differs from it must fail the comparison. AES-CTR runs from
+// its real (generic Go) code on a concrete key and IV.
+func VerifC44_ticket_mac_modified() {
+	cfg := &Config{Rand: zeroRandC44{}}
+	c := &Conn{config: cfg}
+	st := &sessionState{vers: vrt.U16("stVers"), cipherSuite: vrt.U16("stSuite"), masterSecret: vrt.Bytes("ms", 2)}
+	ticket, err := c.encryptTicket(st)
+	vrt.Assert(err == nil && len(ticket) >= 48, "C44/ticket-issued")
+	if err != nil || len(ticket) < 48 {
+		return
+	}
+	genuine := append([]byte(nil), ticket...)
+	if s0, ok0 := c.decryptTicket(genuine); ok0 && s0 != nil && s0.vers == st.vers && s0.cipherSuite == st.cipherSuite {
+		vrt.Cover("C44/genuine-ticket-honoured") // the model is not vacuous: the untouched ticket verifies
+	}
+	modified := append([]byte(nil), ticket...)
+	delta := vrt.Bytes("delta", 32)
+	nonzero := false
+	for i := 0; i < 32; i++ {
+		if delta[i] != 0 {
+			nonzero = true
+		}
+		modified[len(modified)-32+i] ^= delta[i]
+	}
+	vrt.Assume(nonzero)
+	s1, ok1 := c.decryptTicket(modified)
+	vrt.Assert(!ok1, "C44/ticket-with-modified-mac-refused")
+	_ = s1
+}
